@@ -124,10 +124,9 @@ class ArgumentList:
 
                 if do_strip and isinstance(val, str):
                     val = val.strip()
+                # no early exit: a later argument with the same name (or number)
+                # overrides an earlier one, as in MediaWiki, whatever is looked up first
                 self.named_args[name] = (do_strip, val)
-
-                if n == name:
-                    break
 
         try:
             do_strip, val = self.named_args[n]
